@@ -459,6 +459,59 @@ class ChainPairs(Suite):
         return d
 
 
+class ObjectPairs(Suite):
+    """two AutoParameterObjects of one class: when they differ in an argument that the class declares as persisted
+    (at any depth of the argument's value), the parameter texts differ (registry level, runtime check; the Coq side
+    is C03_auto_object_text_injective_partial)"""
+    name = 'object_pairs'
+    model = ''
+
+    def gen(self, rng, tier):
+        out = [dict(cls='AutoC', a1={'step': 1, 'debug_max_rows': 10}, a2={'step': 1, 'debug_max_rows': 20}),
+               dict(cls='AutoC', a1={'step': 1, 'verbose_labels': True}, a2={'step': 1, 'verbose_labels': False}),
+               dict(cls='AutoC', a1={'step': 1, 'debug': 1}, a2={'step': 1, 'debug': 2}),
+               dict(cls='AutoA', a1={'a': ["x'", 'y']}, a2={'a': ["x', 'y"]}),
+               dict(cls='AutoA', a1={'a': 'a\\nb'}, a2={'a': 'a\nb'})]
+        for _ in range(60 if tier == 'quick' else 2000):
+            cls = rng.choice(['AutoA', 'AutoB', 'AutoC'])
+            names = {'AutoA': ['a', 'b', 'verbose'], 'AutoB': ['x', 'y', 'debug'],
+                     'AutoC': ['step', 'debug_max_rows', 'verbose_labels', 'debug']}[cls]
+            a1 = {n: rand_value(rng, 2, rng.random() < 0.5, False) for n in names if rng.random() < 0.7 or n in ('a', 'step')}
+            if not a1:
+                a1[names[0]] = rand_value(rng, 1, False, False)
+            a2 = dict(a1)
+            n = rng.choice(sorted(a2))
+            a2[n] = mutate(rng, a2[n])
+            out.append(dict(cls=cls, a1=a1, a2=a2))
+        return out
+
+    def run_impl(self, case):
+        from taskchain.parameter import Parameter, ParameterRegistry
+        from ..values import filtered_auto_args
+        texts, kept = [], []
+        for args in (case['a1'], case['a2']):
+            spec = {'__auto__': case['cls'], 'args': args}
+            reg = ParameterRegistry([Parameter('p')])
+            reg.set_values({'p': materialize(spec)})
+            texts.append(reg.repr)
+            kept.append(json.dumps(sorted([k, tagged(v)] for k, v in filtered_auto_args(spec).items()), sort_keys=True))
+        return dict(texts=texts, kept=kept)
+
+    def oracle(self, case, obs):
+        if 'unexpected_exception' in obs:
+            return f'unexpected exception {obs["unexpected_exception"]}: {obs["text"]}'
+        if obs['kept'][0] != obs['kept'][1] and obs['texts'][0] == obs['texts'][1]:
+            return (f'{case["cls"]}: arguments {json.dumps(case["a1"])} and {json.dumps(case["a2"])} differ in what the class '
+                    f'persists, yet the parameter text is {obs["texts"][0]!r} for both')
+        return None
+
+    def nontrivial(self, case, obs):
+        return 'kept' in obs and obs['kept'][0] != obs['kept'][1]
+
+    def key(self, case):
+        return repr(case)
+
+
 class Keys(ChainBuild):
     """whole chains: keys of the model against the implementation and against the frozen key scheme"""
     name = 'chain_keys'
@@ -467,7 +520,7 @@ class Keys(ChainBuild):
 
 class C03(Prop):
     pid = 'C03'
-    suites = [Pairs(), ChainPairs(), Keys()]
+    suites = [Pairs(), ObjectPairs(), ChainPairs(), Keys()]
     known_classes = {'unescaped-quote': quote_class}
     assumptions = ['no collision of the hash on the key texts of the chains compared (hypothesis of the chain theorem; '
                    'SHA-256 truncated to 128 bits)',
